@@ -641,7 +641,9 @@ func TestPlaintextAgainstTLSEndpoint(t *testing.T) {
 					return
 				}
 				if noCert {
-					vlib.Rec.Case(fmt.Sprintf("exp3 %s no-certificate refused to start", carrier), true, []string{"exp3", "carrier:" + carrier, "no-certificate", "refused-to-start"}, func() interface{} { return map[string]interface{}{"carrier": carrier, "no_certificate": true, "start_error": err.Error()} })
+					vlib.Rec.Case(fmt.Sprintf("exp3 %s no-certificate refused to start", carrier), true, []string{"exp3", "carrier:" + carrier, "no-certificate", "refused-to-start"}, func() interface{} {
+						return map[string]interface{}{"carrier": carrier, "no_certificate": true, "start_error": err.Error()}
+					})
 					return
 				}
 				rt.Fatalf("pair start: %v", err)
